@@ -72,8 +72,11 @@ def batch_run(
     """
     runs_list = []
     run_id = 0
+    # the design is expanded once: a parameter value may be a one-shot iterable (a generator,
+    # an iterator), which would be exhausted after the first iteration
+    kwargs_list = _make_model_kwargs(parameters)
     for iteration in range(iterations):
-        for kwargs in _make_model_kwargs(parameters):
+        for kwargs in kwargs_list:
             runs_list.append((run_id, iteration, kwargs))
             run_id += 1
 
